@@ -14,7 +14,7 @@ RULE = ("Hypothesis draws a sequence set (small fully-drawn families, expanded f
         ">=1 gap in the result; distinct by hash of (inputs, names, config, entry).")
 ASSUMPTIONS = ["names are drawn from [A-Za-z0-9_.|-] without blanks so that MSF/Clustal name columns are unambiguous",
                "kalign() cannot report how many rows it returns; the probe reads one row per non-empty input"]
-BUDGET = {"quick": dict(examples=60, workers=12, seconds=75),
+BUDGET = {"quick": dict(examples=250, workers=12, seconds=75),
           "thorough": dict(examples=1500, workers=16, seconds=840)}
 
 ENTRIES = ["arr", "dump", "write:fasta", "write:msf", "write:clu", "cli:fasta", "cli:msf", "cli:clu", "stdout:fasta",
@@ -137,7 +137,9 @@ def check(case):
                     return engine.violation({"what": "CLI %s output does not parse" % fmt, "error": str(e)})
                 alnlen = None
     except kal.Failure as f:
-        return engine.violation({"what": "process failure", **f.detail()}, kind=f.ended.kind if f.ended.kind == "hang" else "crash")
+        if f.ended.kind == "hang":
+            return engine.discard("cpu-limit (inconclusive; hangs are judged by C05)")
+        return engine.violation({"what": "process failure", **f.detail()}, kind="crash")
     bad = oracle.integrity(in_names, in_seqs, out_names, rows, alnlen)
     cl = classes_of(case, rows)
     if bad:
